@@ -155,6 +155,8 @@ def annotate_fn(fs, text, negctl=False):
         ann = fs.loops.get(k)
         lines = []
         if ann:
+            for j, inv in enumerate(ann.get('invariant_except_break', [])):
+                lines.append(('loop%d:invariant_except_break:%d' % (k, j), inv))
             for j, inv in enumerate(ann.get('invariant', [])):
                 lines.append(('loop%d:invariant:%d' % (k, j), inv))
             for j, inv in enumerate(ann.get('ensures', [])):
@@ -165,7 +167,7 @@ def annotate_fn(fs, text, negctl=False):
         groups = {}
         for tag, clause in lines:
             groups.setdefault(tag.split(':')[1], []).append((tag, clause))
-        for kw in ('invariant', 'ensures'):
+        for kw in ('invariant_except_break', 'invariant', 'ensures'):
             if kw in groups:
                 ins += '\n%s%s' % (ind, kw)
                 for tag, clause in groups[kw]:
